@@ -594,7 +594,10 @@ func (r *resolver) resolveRef(rs *Resolved, s *Schema, ref string) (_ *Schema, d
 			if ls.Schema == "" {
 				// Inherit from the root of the referring document: s is the schema
 				// holding the $ref, and only a document root declares $schema.
+				// The document belongs to the Loader, which may hand the same *Schema
+				// to other Resolve calls: inherit only while it is being resolved.
 				ls.Schema = rs.root.Schema
+				defer func() { ls.Schema = "" }()
 			}
 			lrs, err := r.resolve(ls, fraglessRefURI)
 			if err != nil {
